@@ -4,6 +4,7 @@
   by kernel evaluation over the whole table; the characterisations hold for any table.
 -/
 import Xc.Gensalt
+import Xc.Gen.Statics
 
 namespace Xc.C18
 open Xc
@@ -140,5 +141,29 @@ def TableOk (tbl : List HashEntry) : Bool :=
 
 theorem tableOk_tree : TableOk Gen.table = true := by decide
 
+
+/-! ### the classification is a function of the bytes alone -/
+
+/-- functions reachable in the call graph (the closure used by C08, restated here so that this file stands on its own) -/
+def reachFrom (funcs : List (List Nat × Nat)) : Nat → List Nat → List Nat
+  | 0, acc => acc
+  | fuel + 1, acc =>
+    let next := acc.foldl (fun a f => (funcs.getD f ([], 0)).1.foldl (fun a c => if a.contains c then a else c :: a) a) acc
+    if next.length = acc.length then acc else reachFrom funcs fuel next
+
+/-- libc functions whose result depends on nothing but their arguments (no locale, no global state) -/
+def localeFree : List String :=
+  ["strlen", "strnlen", "strcmp", "strncmp", "strchr", "strrchr", "strspn", "strcspn", "strpbrk", "strstr", "memcmp", "memchr", "memmem", "memcpy", "memmove",
+   "memset", "strcpy", "strncpy", "__errno_location"]
+
+set_option maxRecDepth 1000000 in
+/-- no function reachable from `crypt_checksalt` (call graph and external callees regenerated from the clang AST of lib/*.c, indirect calls
+    through the method table included) calls anything outside that list - in particular none of the `<ctype.h>` classification functions
+    (`isgraph`, `isalnum`, … compile to `__ctype_b_loc`), whose answers change with `setlocale`: the answer depends on the method tag and the
+    characters of the setting only, not on the process locale -/
+theorem C18_locale_free :
+    (reachFrom Gen.st_funcs Gen.st_funcs.length [Gen.st_reentrant.getD 5 0]).all
+      (fun f => (Gen.st_ext.getD f []).all (fun e => localeFree.contains e)) = true := by
+  decide +kernel
 
 end Xc.C18
